@@ -105,11 +105,11 @@ func c14r2(c *core.Ctx) {
 					}
 				}
 			case *ssa.Return:
-				if len(x.Results) == 1 {
-					if _, ok := core.FieldLoad(x.Results[0], tAccessory, "idCount"); ok && !inc {
+				if len(res(x)) == 1 {
+					if _, ok := core.FieldLoad(res(x)[0], tAccessory, "idCount"); ok && !inc {
 						ret = false // returned value loaded before? need load before inc: handled below
 					}
-					if u, ok := x.Results[0].(*ssa.UnOp); ok {
+					if u, ok := res(x)[0].(*ssa.UnOp); ok {
 						if _, ok := core.FieldLoad(u, tAccessory, "idCount"); ok {
 							// the load instruction must precede the increment store in the block
 							for _, j := range g.Blocks[0].Instrs {
